@@ -94,8 +94,8 @@ func c19ImportAsked(r *Run) {
 func c19Imported(r *Run) {
 	for _, imp := range []struct {
 		prop, rule, as string
-		keep             func(o *Obl) bool
-		min              int
+		keep           func(o *Obl) bool
+		min            int
 	}{
 		{"C22", "", "R-8", func(o *Obl) bool { return strings.Contains(o.Construct, "CombinedImporter") }, 1},
 		{"C14", "R-2", "R-9", func(o *Obl) bool { return true }, 4},
